@@ -37,7 +37,7 @@ def frozen_values(driver, l, st):
 
 
 def run(ctx):
-    proof_ok, proof = common.proof_status(ctx, "C05")
+    proof_ok, proof = common.proof_status_all(ctx, "C05", ["gaps1"])
     s = ctx.seed
     nd = 3000 if ctx.quick else 250000
     nc = 1200 if ctx.quick else 100000
@@ -60,6 +60,15 @@ def run(ctx):
             known += 1
             continue
         ofail.append((l, what, "Circuit::placeDetailed: " + why + ("" if frozen_monotone else " (the wirelength with orientations frozen as the optimiser sees them rose too)")))
+    # last clause on its own: end <= legalized (not through the chain, whose baseline moves up after an F8-excused rise)
+    known_end = 0
+    for l, what, why, pol_changed, i, name in cres["hpwl_end_fail"]:
+        fz = dict(frozen_values(driver, l, cres["parsed"][i]))
+        frozen_end_ok = "end" in fz and fz["end"] <= fz["leg"]
+        if pol_changed and frozen_end_ok and ctx.known_finding("F8"):
+            known_end += 1
+            continue
+        ofail.append((l, what, "Circuit::placeDetailed: " + why + ("" if frozen_end_ok else " (with orientations frozen as the optimiser sees them it exceeds it too)")))
     lp = dres["lp"]
     for l, rec, why in lp["value_rose"][:2]:
         ofail.append((l, "SL " + rec[3:][:3000], "DetailedPlacer::runShiftsOnCells driven directly: the x wirelength rose: " + why))
@@ -123,6 +132,11 @@ def run(ctx):
         x = (e1["driver_fail"] + e2["driver_fail"])[0]
         broken.append(("the composition tie could not be evaluated (%d cases)" % (len(e1["driver_fail"]) + len(e2["driver_fail"])),
                        {"broken": "composition tie (checks/c05_compose.py, ocaml/driver_value.ml)", "first_difference": {"case": x[0], "detail": str(x[1:])[:1500]}}))
+    if cres["hpwl_unparsable"]:
+        x = cres["hpwl_unparsable"][0]
+        broken.append(("a wirelength printed by the placeDetailed harness cannot be read (%d states): the monotonicity oracle cannot be evaluated there" % len(cres["hpwl_unparsable"]),
+                       {"broken": "harness/detailed.cpp output <-> checks/detailed_common.py parse_state (wirelength oracle of C05)",
+                        "first_difference": {"case": x[0], "implementation": x[1], "detail": x[2]}}))
     if not proof_ok:
         broken.append(("proof obligations of Properties_C05.v do not check", {"broken": "Properties_C05.v", "detail": proof}))
     if not ofail:
@@ -147,7 +161,11 @@ def run(ctx):
                         "(10 %) among the weights 0.5..2 (all accepted by addNet); Circuit::hpwl and the from-scratch wirelength count every net (counts: net_weights). "
                         "non-trivial = some op changed the placement (DO) / the run improved the wirelength (DP); distinct = distinct case lines",
                 "direct_drive": do.summary(dres), "placeDetailed_runs": dc.summary(cres),
-                "known_F8_matches": known,
+                "known_F8_matches": known, "known_F8_matches_end_vs_legalized": known_end,
+                "end_vs_legalized": {"checked_runs": cres.get("end_vs_legalized_checked", 0), "exceeding": len(cres["hpwl_end_fail"]),
+                                     "note": "judged separately from the monotone chain; a run exceeding the legalized value is a violation unless it matches F8 narrowly "
+                                             "(a polarised cell changed orientation AND the frozen-orientation wirelength of the returned placement does not exceed the legalized one)"},
+                "wirelength_values_unparsable": len(cres["hpwl_unparsable"]),
                 "shift_lp_certificates": do.lp_summary(lp),
                 "samples": [dres["lines"][0][:600], cres["lines"][0][:600]],
                 "model_vs_impl_differences": len(dres["model_mismatch"]) + len(dres["value_fail"]) + len(lp["net_diff"]) + len(lp["cert_rejected"]) + len(lp["pos_diff"]) + len(e3["mismatch"]),
@@ -155,7 +173,8 @@ def run(ctx):
     return ctx.finish(LEVEL, cov, ["the shift pass is certified per call (proved LP certificate checker on lemon's potentials and flows, %d calls this run); the network simplex itself is not modelled"
                                    % lp["records"] if lp["records"] else
                                    "the shift pass is only observed in this run (value after <= value before): /repo does not carry the hook coloquinte_verif_shift_hook, the LP certificate was not exercised",
-                                   "model tied to the code by exact comparison on the cases of this run"])
+                                   "model tied to the code by exact comparison on the cases of this run",
+                                   "the exposed-wirelength theorems hold for histories of paired steps under orient_frozen at the compared states (a hypothesis on the reached states; discharged from the input only for circuits without polarised cells), int_pins / pins_fit (pin coordinates only: no per-net extent or cost bound is stated) and shift_cert_ok for shift steps; DetailedPlacer::run and the pass loops are not modelled; shift passes inside Circuit::placeDetailed carry no certificate"])
 
 
 def replay(ctx, path):
